@@ -1039,7 +1039,7 @@ func (p *peer) runD(scenario, v string, r *vc.Rng) deadlineRec {
 			srv.Write(f1[len(f1)/2:])
 		case "deadline-midframe-embedded":
 			srv.Write(f1[:cutAt])
-			time.Sleep(500 * time.Millisecond)
+			time.Sleep(230 * time.Millisecond) // longer than one read deadline (150 ms), shorter than two
 			srv.Write(f1[cutAt:])
 		case "deadline-idle":
 			time.Sleep(500 * time.Millisecond)
@@ -1054,7 +1054,7 @@ func (p *peer) runD(scenario, v string, r *vc.Rng) deadlineRec {
 		srv.Write(f2)
 		srv.CloseWrite()
 	}()
-	for i := 0; i < 3; i++ {
+	for i := 0; i < 6; i++ {
 		got := withTimeout(1500*time.Millisecond, func() string {
 			msg, err := t.ReadMsg()
 			switch {
